@@ -46,6 +46,13 @@ impl NewlineCache {
             }));
     }
 
+    /// Verification hook: the cache's internal state `(newlines, trailing_bytes)`.
+    #[cfg(grmtools_verif)]
+    #[doc(hidden)]
+    pub fn verif_state(&self) -> (Vec<usize>, usize) {
+        (self.newlines.clone(), self.trailing_bytes)
+    }
+
     /// Number of bytes fed into the newline cache.
     fn feed_len(&self) -> usize {
         self.newlines.last().unwrap() + self.trailing_bytes
